@@ -459,6 +459,16 @@ def _card(name, seq):
     return seq
 
 
+def _concat(*args):
+    out = ''
+    for z in args:
+        a = atomize(z)
+        if len(a) > 1:
+            raise ModelError('XPTY0004')       # xs:anyAtomicType?
+        out += ''.join(string_of(x) for x in a)
+    return out
+
+
 FUNCS = {
     ('count', 1): lambda s: [len(s)],
     ('empty', 1): lambda s: [not s],
@@ -488,8 +498,8 @@ FUNCS = {
     ('false', 0): lambda: [False],
     ('abs', 1): lambda s: [abs(_single_num_or_empty(s))] if s else [],
     ('string', 1): lambda s: [string_of(s[0])] if s else [''],
-    ('concat', 2): lambda a, b: [''.join(string_of(x) for x in atomize(a)[:1]) + ''.join(string_of(x) for x in atomize(b)[:1])],
-    ('concat', 3): lambda a, b, c: [''.join(''.join(string_of(x) for x in atomize(z)[:1]) for z in (a, b, c))],
+    ('concat', 2): lambda a, b: [_concat(a, b)],
+    ('concat', 3): lambda a, b, c: [_concat(a, b, c)],
     ('data', 1): lambda s: atomize(s),
     ('round', 1): lambda s: [round_half_up(_single_num_or_empty(s))] if s else [],
 }
